@@ -54,6 +54,8 @@ type script struct {
 	Auth   map[string]bool `json:"auth"` // scheme callback -> accept; missing = accept
 	// TamperView, when set, replaces the goa-view header of the response before the client sees it (C08)
 	TamperView *string `json:"tamper_view"`
+	// Results are the messages a streaming method sends (server streaming, bidirectional)
+	Results []any `json:"results"`
 }
 
 type scriptedError struct {
@@ -81,6 +83,9 @@ type callState struct {
 	serverPayload any
 	auth          []authCall
 	writeHeaders  int
+	streamed      []any  // messages the service method received from the stream
+	recvError     string // error the stream's Recv returned to the service method
+	sendError     string
 }
 
 // Runtime holds the design and the registered services.
@@ -162,6 +167,74 @@ func (rt *Runtime) Invoke(ctx context.Context, svc, method string, payload any) 
 		return nil, "", fmt.Errorf("harness: cannot build scripted result: %w", err)
 	}
 	return rv.Interface(), sc.View, nil
+}
+
+// InvokeStream is called by the stub of a streaming method: it reads the client's messages until
+// the end of the stream (recording them), then plays the script: every scripted result is sent
+// (Send), or the single result with SendAndClose, and the stream is closed.
+func (rt *Runtime) InvokeStream(ctx context.Context, svc, method string, payload any, stream any) error {
+	st := rt.state(ctx)
+	s := rt.services[svc]
+	m := s.methodAtt[method]
+	rt.mu.Lock()
+	st.serverCalled = true
+	if payload != nil && m != nil {
+		st.serverPayload = rt.ToJSON(m.Payload, reflect.ValueOf(payload))
+	}
+	sc := st.script
+	rt.mu.Unlock()
+	sv := reflect.ValueOf(stream)
+	if recv := sv.MethodByName("Recv"); recv.IsValid() {
+		for {
+			out := recv.Call(nil)
+			if e, _ := out[1].Interface().(error); e != nil {
+				if e == io.EOF {
+					break
+				}
+				rt.mu.Lock()
+				st.recvError = e.Error()
+				rt.mu.Unlock()
+				return e
+			}
+			j := rt.ToJSON(m.Payload, out[0])
+			rt.mu.Lock()
+			st.streamed = append(st.streamed, j)
+			rt.mu.Unlock()
+		}
+	}
+	if e := sc.Error; e != nil {
+		return rt.buildError(s, method, e)
+	}
+	closeFn := sv.MethodByName("Close")
+	if send := sv.MethodByName("Send"); send.IsValid() {
+		for _, r := range sc.Results {
+			v, err := rt.FromJSON(m.Result, r, send.Type().In(0))
+			if err != nil {
+				return fmt.Errorf("harness: cannot build scripted result: %w", err)
+			}
+			if e, _ := send.Call([]reflect.Value{v})[0].Interface().(error); e != nil {
+				rt.mu.Lock()
+				st.sendError = e.Error()
+				rt.mu.Unlock()
+				return e
+			}
+		}
+	} else if sac := sv.MethodByName("SendAndClose"); sac.IsValid() {
+		v, err := rt.FromJSON(m.Result, sc.Result, sac.Type().In(0))
+		if err != nil {
+			return fmt.Errorf("harness: cannot build scripted result: %w", err)
+		}
+		if e, _ := sac.Call([]reflect.Value{v})[0].Interface().(error); e != nil {
+			return e
+		}
+		return nil
+	}
+	if closeFn.IsValid() {
+		if e, _ := closeFn.Call(nil)[0].Interface().(error); e != nil {
+			return e
+		}
+	}
+	return nil
 }
 
 func (rt *Runtime) buildError(s *ServiceInfo, method string, e *scriptedError) error {
@@ -376,14 +449,15 @@ func (rt *Runtime) clientFor(s *ServiceInfo, d *doer) reflect.Value {
 // ---------------------------------------------------------------- command loop
 
 type command struct {
-	Op      string            `json:"op"` // call | raw
-	ID      string            `json:"id"`
-	Service string            `json:"service"`
-	Method  string            `json:"method"`
-	Payload any               `json:"payload"`
-	Script  script            `json:"script"`
-	Raw     *rawRequest       `json:"raw"`
-	Many    []json.RawMessage `json:"many"` // concurrent batch (C20)
+	Op       string            `json:"op"` // call | raw
+	ID       string            `json:"id"`
+	Service  string            `json:"service"`
+	Method   string            `json:"method"`
+	Payload  any               `json:"payload"`
+	Messages []any             `json:"messages"` // streamed by the client (client streaming, bidirectional)
+	Script   script            `json:"script"`
+	Raw      *rawRequest       `json:"raw"`
+	Many     []json.RawMessage `json:"many"` // concurrent batch (C20)
 }
 
 type rawRequest struct {
@@ -394,19 +468,22 @@ type rawRequest struct {
 }
 
 type observation struct {
-	ID            string      `json:"id,omitempty"`
-	ServerCalled  bool        `json:"server_called"`
-	ServerPayload any         `json:"server_payload,omitempty"`
-	ClientResult  any         `json:"client_result,omitempty"`
-	ClientView    string      `json:"client_view,omitempty"`
-	ClientError   *errInfo    `json:"client_error,omitempty"`
-	Auth          []authCall  `json:"auth,omitempty"`
-	WriteHeaders  int         `json:"write_headers"`
-	Wire          *wire       `json:"wire,omitempty"`
-	GRPC          any         `json:"grpc,omitempty"`
-	Panic         string      `json:"panic,omitempty"`
-	Routes        [][2]string `json:"routes,omitempty"`
-	Harness       string      `json:"harness_error,omitempty"`
+	ID             string      `json:"id,omitempty"`
+	ServerCalled   bool        `json:"server_called"`
+	ServerPayload  any         `json:"server_payload,omitempty"`
+	ClientResult   any         `json:"client_result,omitempty"`
+	ClientView     string      `json:"client_view,omitempty"`
+	ClientError    *errInfo    `json:"client_error,omitempty"`
+	ServerStreamed []any       `json:"server_streamed,omitempty"`
+	ClientStreamed []any       `json:"client_streamed,omitempty"`
+	RecvError      string      `json:"recv_error,omitempty"`
+	Auth           []authCall  `json:"auth,omitempty"`
+	WriteHeaders   int         `json:"write_headers"`
+	Wire           *wire       `json:"wire,omitempty"`
+	GRPC           any         `json:"grpc,omitempty"`
+	Panic          string      `json:"panic,omitempty"`
+	Routes         [][2]string `json:"routes,omitempty"`
+	Harness        string      `json:"harness_error,omitempty"`
 }
 
 type errInfo struct {
@@ -550,6 +627,7 @@ func (rt *Runtime) exec(c *command) (obs observation) {
 	}
 	rt.mu.Lock()
 	obs.ServerCalled, obs.ServerPayload, obs.Auth, obs.WriteHeaders = st.serverCalled, st.serverPayload, st.auth, st.writeHeaders
+	obs.ServerStreamed, obs.RecvError = st.streamed, st.recvError
 	delete(rt.states, id)
 	rt.mu.Unlock()
 	return
